@@ -26,3 +26,45 @@ def legalB (d : Doc) (cfg : List Nat) : Bool :=
   cfg.contains d.root && nodupB cfg && cfg.all (legalAt d cfg)
 
 end Rfsm.Interp
+
+namespace Rfsm.Interp
+
+/-- Decidable structural conformance of the flat tables (what the reader guarantees for a
+    conformant document, as far as the theorems need it):
+    ids are positions; the root has no parent; every other state's parent is a valid state that
+    precedes it in document order and lists it among its `kids` (ordinary states) or `history`
+    (history pseudo-states); history states have no children, are never parents, and own exactly
+    one transition whose targets are non-history proper descendants of the parent (children for
+    shallow history); listed transitions exist and start at the listing state; a `<state>` with
+    children has an initial transition whose targets are non-history descendants. -/
+def conformantB (d : Doc) : Bool :=
+  let n := d.states.length
+  let valid := fun (x : Nat) => decide (0 < x) && decide (x ≤ n)
+  valid d.root && (getState d d.root).parent == 0 && (getState d d.root).histType == 0
+  && (List.range n).all (fun i => (d.states.getD i default).id == i + 1)
+  && d.states.all (fun st =>
+      let s := st.id
+      (s == d.root ||
+        (valid st.parent && decide ((getState d st.parent).docId < st.docId)
+          && (getState d st.parent).histType == 0
+          && (if st.histType == 0 then (getState d st.parent).kids.contains s
+              else (getState d st.parent).history.contains s)))
+      && st.kids.all (fun k => valid k && (getState d k).parent == s && (getState d k).histType == 0)
+      && st.history.all (fun h => valid h && (getState d h).parent == s && (getState d h).histType != 0)
+      && st.transitions.all (fun t => (d.transitions.any (·.id == t)) && (getTrans d t).source == s
+            && (getTrans d t).target.all valid)
+      && (if st.histType != 0 then
+            st.kids.isEmpty && st.history.isEmpty && st.transitions.length == 1
+            && !(histTransition d s).target.isEmpty
+            && (histTransition d s).target.all (fun t => (getState d t).histType == 0
+                  && (if st.histType == 1 then (getState d t).parent == st.parent
+                      else isDescendant d t st.parent))
+          else true)
+      && (if isCompoundState d s || (s == d.root && !st.kids.isEmpty) then
+            st.initial != 0 && d.transitions.any (·.id == st.initial)
+            && !(getTrans d st.initial).target.isEmpty
+            && (getTrans d st.initial).target.all (fun t => valid t && (getState d t).histType == 0
+                  && isDescendant d t s)
+          else true))
+
+end Rfsm.Interp
